@@ -177,3 +177,96 @@ func runExtras(cx *Ctx, prop, tier string, seed int, meta propMeta, replayDir st
 	}
 	return out, viols
 }
+
+// ---- must-fail corpus (thorough tier): mutants of the real code that the contracts are known to reject. Each entry
+// replaces one source line (overlay, nothing written to /repo) and re-verifies the function it belongs to; the run
+// must reject it again. An entry that verifies ("escaped") means the contract or the engine got weaker: it is
+// reported in the evidence and on stdout (SELFTEST-ESCAPED), never as a property violation - the unchanged tree is
+// not at fault. Entries whose source line no longer exists are reported as stale.
+type corpusEntry struct {
+	Prop string `json:"prop"`
+	File string `json:"file"`
+	Line int    `json:"line"`
+	Old  string `json:"old"`
+	New  string `json:"new"`
+	Op   string `json:"op"`
+	Pkg  string `json:"pkg"`
+	Func string `json:"func"`
+}
+
+func runSelftest(repo, prop string, cs *Contracts, outDir string) map[string]any {
+	var all []corpusEntry
+	b, err := os.ReadFile(filepath.Join(verifRoot, "selftest", "corpus.json"))
+	if err != nil || json.Unmarshal(b, &all) != nil {
+		return nil
+	}
+	var mine []corpusEntry
+	for _, e := range all {
+		if e.Prop == prop {
+			mine = append(mine, e)
+		}
+	}
+	if len(mine) == 0 {
+		return nil
+	}
+	killed, stale := 0, 0
+	var escaped []string
+	for i, e := range mine {
+		src, err := os.ReadFile(filepath.Join(repo, e.File))
+		if err != nil {
+			stale++
+			continue
+		}
+		lines := strings.Split(string(src), "\n")
+		at := -1
+		for d := 0; d <= 60 && at < 0; d++ {
+			for _, k := range []int{e.Line - 1 - d, e.Line - 1 + d} {
+				if k >= 0 && k < len(lines) && lines[k] == e.Old {
+					at = k
+					break
+				}
+			}
+		}
+		if at < 0 {
+			stale++
+			continue
+		}
+		lines[at] = e.New
+		ov := map[string][]byte{filepath.Join(repo, e.File): []byte(strings.Join(lines, "\n"))}
+		cx, err := LoadProgram(repo, []string{"./" + e.Pkg}, ov)
+		if err != nil {
+			stale++ // the mutant no longer compiles against the current tree
+			continue
+		}
+		cx.indexFunctions()
+		cx.cs = cs
+		fc := cs.Funcs[fkey(modPath+"/"+e.Pkg, e.Func)]
+		var fn = cx.lookupFn(modPath+"/"+e.Pkg, e.Func)
+		if fc == nil || fn == nil {
+			stale++
+			continue
+		}
+		u, uerr := cx.buildFuncUnit(fn, fc)
+		ur := &UnitResult{Unit: u, Name: fn.String()}
+		rejected := uerr != nil
+		if !rejected {
+			d := filepath.Join(outDir, fmt.Sprintf("selftest%d", i))
+			os.MkdirAll(d, 0o755)
+			solveAll([]*UnitResult{ur}, d, 10, 0, 16)
+			for _, r := range ur.Results {
+				if !r.OK() {
+					rejected = true
+				}
+			}
+			os.RemoveAll(d)
+		}
+		if rejected {
+			killed++
+		} else {
+			msg := fmt.Sprintf("%s:%d %s [%s] in %s", e.File, at+1, strings.TrimSpace(e.New), e.Op, e.Func)
+			escaped = append(escaped, msg)
+			fmt.Printf("SELFTEST-ESCAPED property=%s %s\n", prop, msg)
+		}
+	}
+	return map[string]any{"corpus": "selftest/corpus.json", "entries": len(mine), "rejected": killed, "stale": stale, "escaped": escaped}
+}
